@@ -810,6 +810,29 @@ pub fn funding_reorg_cases(tier: Tier) -> Vec<FundingReorgCase> {
 	v
 }
 
+/// Re-runs one funding-reorg case named (Debug form) in a violation's replay file.
+pub fn replay_funding_reorg(case: &str) -> i32 {
+	for tier in [Tier::Quick, Tier::Thorough] {
+		if let Some(c) = funding_reorg_cases(tier).into_iter().find(|c| format!("{:?}", c) == case) {
+			return match par::guarded(|| funding_reorg_case(&c)) {
+				Ok(Ok((problems, cmp))) => {
+					for (o, d) in problems.iter() {
+						println!("[funding-reorg {:?}] {} {}", c, o, d);
+					}
+					println!("funding-reorg case {:?}: {} comparisons, {} violations", c, cmp, problems.len());
+					if problems.is_empty() { 0 } else { 1 }
+				},
+				Ok(Err(e)) => mc_common::cli::die(&format!("harness problem in funding-reorg case {:?}: {}", c, e)),
+				Err(p) => {
+					println!("funding-reorg case {:?}: panic {}", c, p);
+					1
+				},
+			};
+		}
+	}
+	mc_common::cli::die("unknown funding-reorg case in replay file")
+}
+
 /// Re-runs one script named in a violation's replay file.
 pub fn replay_script(name: &str) -> i32 {
 	for tier in [Tier::Quick, Tier::Thorough] {
